@@ -176,6 +176,28 @@ def _size_facts(cfg, f):
             facts.append(([(tn, 'true')], n + 1))
         elif op is ast.Eq:
             facts.append(([(tn, 'true')], n))
+    # relational: `V > size - K` refused (size >= V + K) together with `V >= M` passed gives size >= M + K, for a local V that is
+    # bound once (the length field just read)
+    rel, low = [], []
+    for expr, tn in cfg.test_nodes.items():
+        if not (isinstance(expr, ast.Compare) and len(expr.ops) == 1 and isinstance(expr.left, ast.Name)):
+            continue
+        v = expr.left.id
+        binds = [a for a in walk_no_nested(f.node) if isinstance(a, ast.Assign) and any(
+            isinstance(x, ast.Name) and x.id == v for t in a.targets for x in ast.walk(t))]
+        if len(binds) != 1:
+            continue
+        rhs = expr.comparators[0]
+        lin = linear(rhs)
+        if isinstance(expr.ops[0], ast.Gt) and lin.get('size') == 1 and set(lin) <= {'size', '1'}:
+            rel.append((v, tn, -lin.get('1', 0)))           # V > size - K refused: size >= V + K
+        m = try_const(rhs)
+        if isinstance(m, int) and isinstance(expr.ops[0], (ast.GtE, ast.Gt)):
+            low.append((v, tn, m if isinstance(expr.ops[0], ast.GtE) else m + 1))
+    for v, t1, k in rel:
+        for v2, t2, m in low:
+            if v == v2:
+                facts.append((('AND', [(t1, 'false')], [(t2, 'true')]), m + k))
     return facts
 
 
@@ -200,6 +222,14 @@ def _bound_at(cfg, f, target, header_size, extra_guards=()):
         if n == 'HS':
             n = header_size
         if not isinstance(n, int):
+            continue
+        if isinstance(edges, tuple) and edges and edges[0] == 'AND':
+            if any(target in cfg.reachable(cfg.entry, avoid_edges=e_) for e_ in edges[1:]):
+                continue
+            edges = [x for e_ in edges[1:] for x in e_]
+            if any(a is not target and a in cfg.reachable() and any(target in cfg.reachable(a, avoid_edges=[x]) for x in edges) for a in assigns):
+                continue
+            best = max(best, n)
             continue
         reach = cfg.reachable(cfg.entry, avoid_edges=edges)
         if target in reach:
@@ -754,6 +784,18 @@ def rule_field_pairs(report, prog, res):
     report.floor('C11-R8', n, 14)
 
 
+def _type_map(prog):
+    m = prog.modules[PDU]
+    for st in m.tree.body:
+        if isinstance(st, ast.Assign) and norm(st.targets[0]) == 'pdu_type_map' and isinstance(st.value, ast.Dict):
+            return st.value
+    raise AnalysisError('C11: pdu_type_map not found')
+
+
+def only_via_(cfg, node, edges):
+    return node not in cfg.reachable(cfg.entry, avoid_edges=edges)
+
+
 def rule_recursion(report, prog, res, rule='C11-R7'):
     """Call-graph cycles inside the decode cone must carry a tested depth parameter."""
     edges = {}
@@ -813,13 +855,20 @@ def rule_recursion(report, prog, res, rule='C11-R7'):
                     for n in walk_no_nested(f.node):
                         if isinstance(n, ast.Compare) and pn in [x.id for x in ast.walk(n) if isinstance(x, ast.Name)]:
                             bounded = True
-            # or the nested type is refused outright (AGF inside AGF is invalid)
+            # or the nested type is refused outright before the recursive call: a raise guard on the sub-PDU's type field, compared
+            # with the type code this decoder is registered under, that every path to the call has to pass
             if q.endswith('AggregatedFrame.decode'):
-                for n in walk_no_nested(f.node):
-                    if isinstance(n, ast.If) and any(isinstance(y, ast.Raise) for y in ast.walk(n)) \
-                            and ('AggregatedFrame' in norm(n.test) or 'ptype' in norm(n.test) or '0b0010' in norm(n.test) or ' 2' in norm(n.test)):
-                        if 'isinstance' in norm(n.test) or 'ptype' in norm(n.test):
-                            bounded = True
+                cfg = cfg_of(f)
+                own = [try_const(k) for k, v in zip(_type_map(prog).keys, _type_map(prog).values) if norm(v) == 'AggregatedFrame']
+                calls_ = [cfg_node_for(cfg, c) for c in walk_no_nested(f.node) if isinstance(c, ast.Call) and norm(c.func) == 'decode']
+                guards = []
+                for e, t in cfg.test_nodes.items():
+                    if isinstance(e, ast.Compare) and len(e.ops) == 1 and isinstance(e.ops[0], ast.Eq) and try_const(e.comparators[0]) in own \
+                            and isinstance(t.owner, ast.If) and any(isinstance(y, ast.Raise) for y in t.owner.body) and 'ptype' in norm(e.left):
+                        guards.append((t, 'false'))
+                sizes = [(t, 'false') for e, t in cfg.test_nodes.items() if norm(e) in ('pdu_size >= 2', 'pdu_size > 1')]
+                if guards and calls_ and all(c is not None and only_via_(cfg, c, guards + sizes) for c in calls_):
+                    bounded = True
         report.check(bounded, rule, key('decode recursion', ' -> '.join(x.replace(PDU + '.', '') for x in cyc)),
                      funcs[cyc[0]].loc(),
                      'peer-controlled nesting recurses without bound: %s (a deeply nested aggregate raises RecursionError)'
